@@ -1082,6 +1082,12 @@ func (m *Model) jset(args []string) (respc.Reply, bool) {
 	if !raw && !simpleWord(val) {
 		return respc.Reply{}, false
 	}
+	if raw && isPlainJSONNumber(val) {
+		// only canonically spelled numbers: JGET re-formats the others (2.50 -> 2.5)
+		if c, _ := fmtNum(val); c != val {
+			return respc.Reply{}, false
+		}
+	}
 	rawText := val
 	if !raw {
 		rawText = strconv.Quote(val)
@@ -1223,6 +1229,10 @@ func (m *Model) jget(args []string) (respc.Reply, bool) {
 	}
 	for _, kv := range o.JDoc {
 		if kv.K == path {
+			if !raw && kv.Raw == "null" {
+				// the string form of a JSON null is the empty string
+				return respc.Bulk(""), true
+			}
 			if raw || kv.Raw[0] != '"' {
 				return respc.Bulk(kv.Raw), true
 			}
